@@ -6,7 +6,7 @@
 From Coq Require Import ZArith List Bool.
 From LV Require Import Enc.EncBase Enc.Subrect Enc.SubrectProofs Enc.Raw Enc.RRE Enc.Hextile Enc.Zlib Enc.ZRLE
      Enc.Update Enc.RawRREProofs Enc.HextileProofs Enc.SplitProofs Enc.StreamProofs
-     Enc.ZRLEProofs1 Enc.ZRLEProofs4 Enc.ZRLEFormatProofs Enc.UpdateProofs Enc.Tight Enc.TightProofs Enc.TightSplit Enc.TightSplitProofs Enc.Session Enc.SessionProofs
+     Enc.ZRLEProofs1 Enc.ZRLEProofs4 Enc.ZRLEFormatProofs Enc.UpdateProofs Enc.Tight Enc.TightProofs Enc.TightSplit Enc.TightSplitProofs Enc.TightSessionProofs Enc.TightSplitTotal Enc.BytesProofs Enc.TotalProofs Enc.ZRLESendProofs Enc.Session Enc.SessionProofs
      Dec.SpecPaint Dec.SpecRaw Dec.SpecRRE Dec.SpecHextile Dec.SpecZRLE Dec.SpecTight Dec.SpecUpdate Gen.Consts_C01.
 Import ListNotations.
 
@@ -165,14 +165,51 @@ Theorem C01_tight_tpixel_plain : forall p pix,
   tp_pack24 p = false -> pix_ok (tp_bypp p) pix -> tpix_rt p pix.
 Proof. exact tpix_rt_plain. Qed.
 
-(* every 8-8-8 format of depth 24: the three bytes in any order, either endianness *)
+(* every byte-aligned 8-8-8 format: the three bytes anywhere in the 32 bits (shifts 0/8/16/24), any order, either endianness *)
 Theorem C01_tight_tpixel_888 : forall p r g b, tp_pack24 p = true ->
-  (tp_rs p = 0 \/ tp_rs p = 8 \/ tp_rs p = 16)%Z -> (tp_gs p = 0 \/ tp_gs p = 8 \/ tp_gs p = 16)%Z ->
-  (tp_bs p = 0 \/ tp_bs p = 8 \/ tp_bs p = 16)%Z ->
+  (tp_rs p = 0 \/ tp_rs p = 8 \/ tp_rs p = 16 \/ tp_rs p = 24)%Z -> (tp_gs p = 0 \/ tp_gs p = 8 \/ tp_gs p = 16 \/ tp_gs p = 24)%Z ->
+  (tp_bs p = 0 \/ tp_bs p = 8 \/ tp_bs p = 16 \/ tp_bs p = 24)%Z ->
   tp_rs p <> tp_gs p -> tp_rs p <> tp_bs p -> tp_gs p <> tp_bs p ->
   (0 <= r < 256)%Z -> (0 <= g < 256)%Z -> (0 <= b < 256)%Z ->
   tpix_rt p (grid_pixel_of_value (tp_be p) 4 (r * 2 ^ tp_rs p + g * 2 ^ tp_gs p + b * 2 ^ tp_bs p)%Z).
 Proof. exact tpix_rt_888. Qed.
+
+(* the decoder's TPIXEL flag is the SPECIFICATION's (spec_tpixel3): the parameters the server derives
+   from the client format agree with it whenever the format has 32 bits per pixel and is true colour
+   (or the repaired test, strict = true, is used) *)
+Theorem C01_tight_fmt_is_spec : forall strict sbypp bypp bpp depth be tc rmax gmax bmax rs gs bs level quality,
+  strict = true \/ (bpp = 32%Z /\ tc <> 0%Z) ->
+  tp_fmt (tight_params_of strict sbypp bypp bpp depth be tc rmax gmax bmax rs gs bs level quality) =
+  spec_tight_fmt bypp bpp depth be tc rmax gmax bmax rs gs bs.
+Proof. exact tp_fmt_is_spec. Qed.
+
+(* the unchanged test without the bpp / true-colour conditions (finding F7) *)
+Theorem C01_tight_pack24_narrow_refuted :
+  exists g payload,
+    tight_subrect (tight_params_of false 1 1 8 24 0 1 255 255 255 0 0 0 1 (-1)) 1 1 g = Some (TPayload payload) /\
+    dec_tight (spec_tight_fmt 1 8 24 0 1 255 255 255 0 0 0) 1 1 payload = None.
+Proof. exact tight_pack24_narrow_refuted. Qed.
+
+(* Pack24 with a byte order different from the server's and unaligned shifts (finding F8) *)
+Theorem C01_tight_pack24_be_unaligned_refuted :
+  let p := mkTP 4 true true 4 12 20 1 false false in
+  exists pix, pix = grid_pixel_of_value true 4 (1 * 2 ^ 4 + 2 * 2 ^ 12 + 3 * 2 ^ 20)%Z /\
+              take_tpixel (tp_fmt p) (tpixel_bytes p pix) <> Some (pix, []).
+Proof. exact tight_pack24_be_unaligned_refuted. Qed.
+
+(* the function the driver runs.  The request is partitioned by the pieces (proved); every piece is sent as
+   rectangles that partition it and decode.  PARTIAL: that the area of a piece sent as fill rectangle is
+   uniformly coloured on the translated screen (solids_uniform) is a hypothesis, not proved - the
+   solid-area search runs on the server framebuffer sfb, which this theorem does not tie to scr *)
+Theorem C01_tight_session_partial :
+  forall strict sbypp bypp bpp depth be tc rmax gmax bmax rs gs bs level quality lastrect W H x y w h scr sfb rects,
+  let p := tight_params_of strict sbypp bypp bpp depth be tc rmax gmax bmax rs gs bs level quality in
+  wf_grid W H scr -> Forall (Forall (tpix_rt p)) scr -> conf_ok (tp_conf p) ->
+  x + w <= W -> y + h <= H -> 1 <= w -> 1 <= h ->
+  (forall pieces, tight_split (S (w * h)) sfb x y w h = Some pieces -> solids_uniform scr pieces) ->
+  send_tight_session strict sbypp bypp bpp depth be tc rmax gmax bmax rs gs bs level quality lastrect x y w h scr sfb = Ok rects ->
+  exists pieces groups, part_abs x y w h (geoms pieces) /\ Forall2 (piece_sent p scr) pieces groups /\ rects = concat groups.
+Proof. exact send_tight_session_ok. Qed.
 
 Theorem C01_tight_level0_refuted :
   exists g payload, tight_subrect (mkTP 1 false false 0 0 0 0 false false) 1 2 g = Some (TPayload payload) /\
@@ -207,9 +244,9 @@ Proof. exact strips_partition. Qed.
 Theorem C01_stream_history : forall (cstate dstate : Type)
   (compress : cstate -> list Z -> list Z * cstate) (decompress : dstate -> list Z -> option (list Z * dstate))
   (sync : cstate -> dstate -> Prop),
-  (forall cs ds data, sync cs ds ->
+  (forall cs ds data, data <> [] -> sync cs ds ->
      exists ds', decompress ds (fst (compress cs data)) = Some (data, ds') /\ sync (snd (compress cs data)) ds') ->
-  forall ps cs ds, sync cs ds ->
+  forall ps cs ds, Forall (fun p => p <> []) ps -> sync cs ds ->
   decomp_all dstate decompress ds (comp_all cstate compress cs ps) = Some ps.
 Proof. exact stream_history. Qed.
 
@@ -225,25 +262,66 @@ Theorem C01_send_rect : forall W H scr p x y w h rects,
   partitions w h (rel_geoms x y rects).
 Proof. exact send_rect_ok. Qed.
 
-(* ---- a whole connection: parameter changes (SetEncodings / SetPixelFormat) and updates in any
-   order, Zlib / ZRLE / Ultra payloads through compressors whose state persists for the connection
-   (paired oracle states); only hypothesis on the external code: the round trip ---- *)
-Theorem C01_session : forall (cstate dstate : Type)
+(* ---- a whole connection WITHOUT Tight: parameter changes (SetEncodings / SetPixelFormat) and updates in
+   any order for the encodings of send_rect; Zlib and ZRLE payloads go through two compressors whose
+   states persist for the connection (paired oracle states), Ultra through the stateless LZO oracle;
+   hypotheses on the external code: round trip on non-empty data only.  Tight rectangles (4 streams,
+   stream id in the control byte, <12-byte bypass, compact lengths) are NOT covered here: see
+   C01_tight_session_partial + C01_stream_history. ---- *)
+Theorem C01_session_nontight : forall (cstate dstate : Type)
   (compress : cstate -> list Z -> list Z * cstate) (decompress : dstate -> list Z -> option (list Z * dstate))
-  (sync : cstate -> dstate -> Prop),
-  (forall cs ds data, sync cs ds ->
+  (sync : cstate -> dstate -> Prop) (lzo : list Z -> list Z) (unlzo : list Z -> option (list Z)),
+  (forall cs ds data, data <> [] -> sync cs ds ->
      exists ds', decompress ds (fst (compress cs data)) = Some (data, ds') /\ sync (snd (compress cs data)) ds') ->
+  (forall data, data <> [] -> unlzo (lzo data) = Some data) ->
   forall steps p cs ds wire,
   session_ok p steps -> sync3 cstate dstate sync cs ds ->
-  run_session cstate compress p cs steps = Ok wire ->
-  exists grids, client_session dstate decompress p ds steps wire = Some grids /\ session_pixels steps wire grids.
+  run_session cstate compress lzo p cs steps = Ok wire ->
+  exists grids, client_session dstate decompress unlzo p ds steps wire = Some grids /\ session_pixels steps wire grids.
 Proof. exact session_roundtrip. Qed.
 
 Example C01_session_nonvacuous :
-  exists wire, run_session unit (fun cs pl => (pl, cs)) (mkParams 6 1 1 48 48 0 false) (tt, tt, tt)
+  exists wire, run_session unit (fun cs pl => (pl, cs)) (fun pl => pl) (mkParams 6 1 1 48 48 0 false) (tt, tt)
     [Update 0 0 3 2 [[1; 2; 2]; [1; 2; 3]]%Z; SetParams (mkParams 5 1 1 48 48 0 false); Update 1 0 2 2 [[1; 2; 2]; [1; 2; 3]]%Z] = Ok wire
     /\ length wire = 2.
 Proof. eexists. split; [vm_compute; reflexivity|reflexivity]. Qed.
+
+(* C01_send_rect for ZRLE with the CPIXEL mode tied to the client format (not a free parameter): the mode
+   the repaired server computes, decoded with the specification's mode; only hypothesis beyond
+   well-formedness: depth <= 24 *)
+Theorem C01_send_rect_zrle_format : forall W H p depth be tc rmax gmax bmax rs gs bs (vals : list (list Z)) x y w h rects,
+  fmt_wf 32 rmax gmax bmax rs gs bs -> tc <> 0%Z -> (depth <= 24)%Z ->
+  p_enc p = c_encZRLE -> p_bypp p = 4 -> p_b15 p = false ->
+  p_cmode p = zrle_cmode_gen false 32 be rmax gmax bmax rs gs bs ->
+  wf_grid W H vals ->
+  Forall (Forall (fun v => (0 <= v)%Z /\ Z.land v (maxpix rmax gmax bmax rs gs bs) = v)) vals ->
+  x + w <= W -> y + h <= H -> 1 <= w -> 1 <= h -> (Z.of_nat w < 65536)%Z -> (Z.of_nat h < 65536)%Z ->
+  1 <= p_mw p <= 255 -> 1 <= p_mh p <= 255 ->
+  let scr := map (map (grid_of_value 32 be)) vals in
+  send_rect p x y w h scr = Ok rects ->
+  Forall (rect_ok 4 (spec_cmode 32 depth be tc rmax gmax bmax rs gs bs) scr) rects /\
+  partitions w h (rel_geoms x y rects).
+Proof. exact send_rect_zrle_format. Qed.
+
+(* ---- what is sent are bytes, and the mirror does not give up: Raw, encoding -1, RRE, CoRRE, Hextile, Zlib,
+   Ultra (ZRLE and Tight: not proved, see notes/C01.md "Not proved") ---- *)
+Theorem C01_send_rect_bytes : forall W H scr p x y w h rects,
+  wf_grid W H scr -> x + w <= W -> y + h <= H ->
+  In (p_enc p) [c_encRaw; (-1)%Z; c_encRRE; c_encCoRRE; c_encHextile; c_encZlib; c_encUltra] ->
+  send_rect p x y w h scr = Ok rects -> Forall (fun r => bytes_ok (wire_bytes r)) rects.
+Proof. exact send_rect_bytes. Qed.
+
+Theorem C01_send_rect_total : forall W H scr p x y w h,
+  wf_grid W H scr -> x + w <= W -> y + h <= H -> 1 <= w -> 1 <= h -> 1 <= p_bypp p ->
+  p_bypp p * w <= bufsize -> 1 <= p_mw p -> 1 <= p_mh p ->
+  In (p_enc p) [c_encRaw; (-1)%Z; c_encRRE; c_encCoRRE; c_encHextile; c_encZlib; c_encUltra] ->
+  exists rects, send_rect p x y w h scr = Ok rects.
+Proof. exact send_rect_total. Qed.
+
+(* the fuel send_tight_session passes to the solid-area recursion is adequate *)
+Theorem C01_tight_split_total : forall sfb x y w h, 1 <= w -> 1 <= h ->
+  exists ps, tight_split (S (w * h)) sfb x y w h = Some ps.
+Proof. intros sfb x y w h Hw Hh. apply tight_split_total; [exact Hw|exact Hh|apply Nat.lt_succ_diag_r]. Qed.
 
 Example C01_send_rect_nonvacuous :
   exists rects, send_rect (mkParams 5 1 1 48 48 0 false) 1 0 2 2 [[1; 2; 2]; [1; 2; 3]]%Z = Ok rects /\ length rects = 1.
